@@ -32,7 +32,9 @@ def alts(items): return ", ".join("fn do\n%s\nend" % s for s, _ in items)
 def ealts(items): return ", ".join(s for s, _ in items)
 
 BLOB_INST = [("Bb { a: 1, b: 2 }", False), ("Bb { b: 2, a: 1 }", False), ("Bb { a: 1 }", True), ("Bb { b: 2 }", True), ("Bb { a: 1, b: 2, c: 3 }", True), ("Bb { c: 3 }", True), ("Bb { }", True),
-             ("Xb { a: 1 }", True), ("Gb { v: 1 }", False), ("Gb { v: 1, w: 2 }", True), ("Gb { }", True), ("Bb { a: 1, a: 2, b: 3 }", None)]
+             ("Xb { a: 1 }", True), ("Gb { v: 1 }", False), ("Gb { v: 1, w: 2 }", True), ("Gb { }", True), ("Bb { a: 1, a: 2, b: 3 }", None),
+             # a repeated initialiser does not stand in for a missing field (as many given as declared, one of them missing)
+             ("Bb { a: 1, a: 2 }", True), ("Bb { b: 1, b: 2 }", True), ("Bb { a: 1, a: 2, a: 3 }", True), ("Bb { a: 1, c: 2 }", True), ("Bb { c: 1, c: 2 }", True), ("Gb { v: 1, v: 2 }", None)]
 FIELD = [("k :: bv.a", False), ("k :: bv.b", False), ("k :: bv.c", True), ("k :: ga(bv)", False), ("k :: gc(bv)", True), ("bv.c = 1", True), ("bv.a = 2", False), ("k :: gv.v", False), ("k :: gv.w", True),
          ("k :: (bv.a).x", True)]
 ENUM = [("e :: En.A 1", False), ("e :: En.B", False), ("e :: En.C", True), ("e :: En.C 1", True), ("e :: Ge.Ja 1", False), ("e :: Ge.No", False), ("e :: Ge.Xx 1", True), ("e :: Bb.A 1", True)]
